@@ -923,6 +923,11 @@ def gen_service_config(rng, spec, p_named=0.7):
                 "backoffMultiplier": rng.choice([1.3, 2, 1.5, 3, 1.25, 2.5, 1, 0.5]),
                 "retryableStatusCodes": rng.sample(ALL_CODES, ncodes),
             }
+        if "retryPolicy" in e and rng.random() < 0.3:
+            # real configs share ONE policy between entries that differ only in their timeout
+            prev = [x for x in entries if "retryPolicy" in x]
+            if prev:
+                e["retryPolicy"] = copy.deepcopy(rng.choice(prev)["retryPolicy"])
         entries.append(e)
     if rng.random() < 0.08:
         # legal and inert: an entry that names no method at all (gRPC: applies to nothing), e.g. a forgotten default
